@@ -2765,20 +2765,24 @@ class Env(cabc.MutableMapping):
         """
         return varname in self._d
 
-    def _capture_for_swap(self, key, local):
+    def _capture_for_swap(self, key, local, old):
         """Capture `key`'s pre-swap state so the outer scope can be
         restored on exit. We probe the thread-local layer directly
         instead of going through ``get`` so that a DELETE_VAR mask
         survives a nested ``swap`` that overrides the same key with
         a value — otherwise the mask would be silently dropped when
         the inner ``swap`` exits.
+
+        Only that layer is captured (``NotImplemented`` = no entry): a
+        value that is merely visible from the shared layer, an alias
+        overlay or a registered default must not be written into this
+        thread's layer on exit — it would count as manually set, be
+        exported to children and hide later assignments of other threads.
         """
-        if key in local:
-            return local[key]
-        try:
-            return self[key]
-        except KeyError:
-            return NotImplemented
+        # ``_set_item`` assigns the ``sync`` twin of a variable as well
+        twin = self._vars[key].sync if key in self._vars else ""
+        for name in (key, twin) if twin else (key,):
+            old[name] = local.get(name, NotImplemented)
 
     @contextlib.contextmanager
     def swap(self, other=None, overlay=None, **kwargs):
@@ -2797,11 +2801,11 @@ class Env(cabc.MutableMapping):
         # single positional argument should be a dict-like object
         if other is not None:
             for k, v in other.items():
-                old[k] = self._capture_for_swap(k, local)
+                self._capture_for_swap(k, local, old)
                 self._set_item(k, v, thread_local=True)
         # kwargs could also have been sent in
         for k, v in kwargs.items():
-            old[k] = self._capture_for_swap(k, local)
+            self._capture_for_swap(k, local, old)
             self._set_item(k, v, thread_local=True)
 
         if overlay is not None:
@@ -2817,9 +2821,11 @@ class Env(cabc.MutableMapping):
             # restore the values
             for k, v in old.items():
                 if v is NotImplemented:
-                    self._del_item(k, thread_local=True)
+                    # the body may have deleted the variable already
+                    if k in local:
+                        self._del_item(k, thread_local=True)
                 else:
-                    self._set_item(k, v, thread_local=True)
+                    self._set_item(k, v, thread_local=True, check_sync=False)
             if exception is not None:
                 # plain re-raise to preserve __cause__/__context__ chains
                 raise exception
@@ -2981,13 +2987,23 @@ class Env(cabc.MutableMapping):
 
     def _del_item(self, key, thread_local=False):
         if key in self._d:
+            old_value = self._d[key]
             if thread_local:
                 self._d.del_locally(key)
             else:
                 del self._d[key]
             self._detyped = None
-            if self.get("UPDATE_OS_ENVIRON") and key in os_environ:
-                del os_environ[key]
+            # removing a thread-local entry (end of a ``swap``) can make the
+            # value of the shared layer visible again
+            val = self._d.get(key, DELETE_VAR)
+            if self.get("UPDATE_OS_ENVIRON"):
+                deval = self.get_detyped(key)
+                if deval is not None:
+                    os_environ[key] = deval
+                elif key in os_environ:
+                    del os_environ[key]
+            if not (val is DELETE_VAR or old_value is DELETE_VAR or old_value == val):
+                events.on_envvar_change.fire(name=key, oldvalue=old_value, newvalue=val)
         elif key not in self._vars:
             e = "Unknown environment variable: ${}"
             raise KeyError(e.format(key))
